@@ -381,7 +381,7 @@ ASMJIT_FAVOR_SIZE Error EmitHelper::emit_arg_move(
       if (dst_scalar_id == TypeId::kFloat32 && src_scalar_id == TypeId::kFloat64) {
         src_size = Support::min(dst_size * 2, src_size);
         dst_size = src_size / 2;
-        inst_id = (src_size <= 8) ? ids().cvtss2sd() : ids().cvtps2pd();
+        inst_id = (src_size <= 8) ? ids().cvtsd2ss() : ids().cvtpd2ps();
 
         if (dst_size == 32) {
           dst.set_signature(Reg::signature_of_t<RegType::kVec256>());
@@ -395,7 +395,7 @@ ASMJIT_FAVOR_SIZE Error EmitHelper::emit_arg_move(
       if (dst_scalar_id == TypeId::kFloat64 && src_scalar_id == TypeId::kFloat32) {
         src_size = Support::min(dst_size, src_size * 2) / 2;
         dst_size = src_size * 2;
-        inst_id = (src_size <= 4) ? ids().cvtsd2ss() : ids().cvtpd2ps();
+        inst_id = (src_size <= 4) ? ids().cvtss2sd() : ids().cvtps2pd();
 
         dst.set_signature(RegUtils::signature_of_vec_by_size(dst_size));
         if (src.is_reg() && src_size >= 32) {
